@@ -1870,6 +1870,7 @@ impl World for MemWorld {
         let mut bad_rights = 0;
         let mut bad_lock = 0;
         let mut bad_fork = 0;
+        let mut leaked_unwiped = false;
         for b in shim::all_blocks() {
             let mut a = b.base;
             while a < b.base + b.size {
@@ -1896,6 +1897,7 @@ impl World for MemWorld {
                     // leaked) is only C19's business ("everything is still wiped ... on drop")
                     out.probe("block.never_released_nonzero");
                     if self.refusals_seen > 0 {
+                        leaked_unwiped = true;
                         out.violate("C19", "c19.residual", site(&[("event", "end"), ("what", "leaked_unwiped")]), format!("after a refused lock a {}-byte allocation was neither wiped nor released ({} non-zero bytes)", b.size, nz));
                     }
                 }
@@ -1928,6 +1930,12 @@ impl World for MemWorld {
             unsafe {
                 libc::syscall(libc::SYS_munlock, b.base, b.size);
             }
+        }
+        // blocks this run has just reported as leaked *and unwiped* are handed back by the harness,
+        // so that a leaking build does not slow every later run of the worker down (an ever longer
+        // /proc/self/smaps); blocks that are merely kept (a pooling allocator) are left alone
+        if leaked_unwiped && shim::release_leaked() > 0 {
+            out.probe("block.leaked_released_by_harness");
         }
         self.vmas = vmas;
         self.scratch = scratch;
